@@ -36,6 +36,7 @@ pub struct WorkerHandle {
     errlog: PathBuf,
     timeout: Duration,
     pub restarts: u64,
+    reduce_sig: Option<String>,
 }
 
 #[derive(Debug)]
@@ -71,6 +72,7 @@ impl WorkerHandle {
             errlog: dir.join(format!("{prop_id}-{tag}-{}.err", std::process::id())),
             timeout: Duration::from_millis(timeout_ms),
             restarts: 0,
+            reduce_sig: None,
         }
     }
 
@@ -94,15 +96,19 @@ impl WorkerHandle {
         let stdout = child.stdout.take().unwrap();
         let (tx, rx) = channel();
         std::thread::spawn(move || {
-            let r = BufReader::new(stdout);
-            for line in r.lines() {
-                match line {
-                    Ok(l) => {
+            let mut r = BufReader::new(stdout);
+            loop {
+                let mut buf = Vec::new();
+                match r.read_until(b'\n', &mut buf) {
+                    Ok(0) | Err(_) => break,
+                    Ok(_) => {
+                        // a corrupted worker may emit bytes that are not UTF-8: pass them on
+                        // (lossily) so that the driver sees a bad reply instead of a hang
+                        let l = String::from_utf8_lossy(&buf).trim_end().to_string();
                         if tx.send(l).is_err() {
                             break;
                         }
                     }
-                    Err(_) => break,
                 }
             }
         });
@@ -129,11 +135,38 @@ impl WorkerHandle {
         lines[n.saturating_sub(14)..].join("\n")
     }
 
+    pub fn render_only(&mut self, case: &Case) -> String {
+        match self.request(case, false, true) {
+            CaseResult::Done(o) => o.render.unwrap_or_default(),
+            _ => String::new(),
+        }
+    }
+
     pub fn run(&mut self, case: &Case, render: bool) -> CaseResult {
+        self.request(case, render, false)
+    }
+
+    pub fn reduce(&mut self, case: &Case, sig: &str) -> String {
+        self.reduce_sig = Some(sig.to_string());
+        let saved = self.timeout;
+        self.timeout = Duration::from_secs(120);
+        let r = self.request(case, false, false);
+        self.timeout = saved;
+        self.reduce_sig = None;
+        match r {
+            CaseResult::Done(o) => o.render.unwrap_or_default(),
+            _ => String::new(),
+        }
+    }
+
+    fn request(&mut self, case: &Case, render: bool, render_only: bool) -> CaseResult {
         if let Err(e) = self.ensure() {
             return CaseResult::Infra(format!("cannot start worker: {e}"));
         }
-        let req = json!({"case": case_to_json(case), "render": render});
+        let mut req = json!({"case": case_to_json(case), "render": render, "render_only": render_only});
+        if let Some(s) = &self.reduce_sig {
+            req["reduce_sig"] = J::String(s.clone());
+        }
         let line = serde_json::to_string(&req).unwrap();
         let wrote = {
             let si = self.stdin.as_mut().unwrap();
@@ -148,8 +181,18 @@ impl WorkerHandle {
             Ok(l) => match serde_json::from_str::<J>(&l).ok().and_then(|j| Outcome::from_json(&j)) {
                 Some(o) => CaseResult::Done(o),
                 None => {
+                    // the worker is alive but its reply is garbage: its memory was corrupted
+                    // by the case in flight
                     self.kill();
-                    CaseResult::Infra(format!("bad reply from worker: {l}"))
+                    let tail = self.stderr_tail();
+                    CaseResult::Done(Outcome::fail(
+                        "crash:corrupt-reply".to_string(),
+                        format!(
+                            "worker process answered with a corrupt reply (memory corruption); reply: {}\nstderr tail:\n{}",
+                            l.chars().take(200).collect::<String>(),
+                            tail
+                        ),
+                    ))
                 }
             },
             Err(RecvTimeoutError::Timeout) => {
@@ -157,8 +200,18 @@ impl WorkerHandle {
                 CaseResult::Timeout
             }
             Err(RecvTimeoutError::Disconnected) => {
-                // worker died: classify
-                let status = self.child.as_mut().map(|c| c.wait());
+                // worker died: classify (close its stdin first; kill it if it lingers)
+                self.stdin = None;
+                let status = self.child.as_mut().map(|c| {
+                    for _ in 0..200 {
+                        if let Ok(Some(st)) = c.try_wait() {
+                            return Ok(st);
+                        }
+                        std::thread::sleep(Duration::from_millis(10));
+                    }
+                    let _ = c.kill();
+                    c.wait()
+                });
                 self.child = None;
                 self.stdin = None;
                 self.rx = None;
@@ -239,7 +292,12 @@ pub fn load_known(prop: &str) -> Vec<Known> {
     let mut out = Vec::new();
     for e in j.get("findings").and_then(|x| x.as_array()).cloned().unwrap_or_default() {
         let g = |k: &str| e.get(k).and_then(|x| x.as_str()).unwrap_or("").to_string();
-        if g("property") != prop {
+        let affects: Vec<String> = e
+            .get("affects")
+            .and_then(|x| x.as_array())
+            .map(|a| a.iter().filter_map(|s| s.as_str().map(|s| s.to_string())).collect())
+            .unwrap_or_default();
+        if g("property") != prop && !affects.iter().any(|a| a == prop) {
             continue;
         }
         out.push(Known {
@@ -253,7 +311,14 @@ pub fn load_known(prop: &str) -> Vec<Known> {
                 .and_then(|x| x.as_array())
                 .map(|a| a.iter().filter_map(|s| s.as_str().map(|s| s.to_string())).collect())
                 .unwrap_or_default(),
-            reproducer: e.get("reproducer").and_then(case_from_json),
+            reproducer: e.get("reproducer").and_then(case_from_json).or_else(|| {
+                // readable form: list of strings, each one chunk (UTF-8 bytes)
+                e.get("reproducer_text")?
+                    .as_array()?
+                    .iter()
+                    .map(|x| x.as_str().map(|s| s.as_bytes().to_vec()))
+                    .collect()
+            }),
         });
     }
     out
@@ -475,7 +540,7 @@ fn run_shard(
             source_file: None,
             test_name: None,
             max_shrink_time: 0,
-            max_shrink_iters: prop.max_shrink(),
+            max_shrink_iters: prop.max_shrink().min(400),
             max_default_size_range: 100,
             result_cache: proptest::test_runner::basic_result_cache,
             verbose: 0,
@@ -500,6 +565,7 @@ fn run_shard(
             Ok(()) => {}
             Err(TestError::Fail(reason, case)) => {
                 stop.store(true, Ordering::Relaxed);
+                let case = minimize(&mut cx, case, reason.message());
                 let (msg, render) = describe(&mut cx.worker, &case);
                 violation = Some(Violation {
                     case,
@@ -519,10 +585,107 @@ fn run_shard(
     (cx.stats, violation)
 }
 
+/// Position-stable minimisation after proptest's generic shrink: empty whole chunks,
+/// truncate chunks, and zero windows of bytes (zero = simplest choice, and zeroing keeps
+/// every later byte at its position, unlike deletion).
+fn minimize(cx: &mut ShardCtx<'_>, mut case: Case, sig: &str) -> Case {
+    let mut budget: i32 = 6000;
+    let mut fails = |cx: &mut ShardCtx<'_>, c: &Case, budget: &mut i32| -> bool {
+        if *budget <= 0 {
+            return false;
+        }
+        *budget -= 1;
+        match cx.worker.run(c, false) {
+            CaseResult::Done(o) => o.verdict == Verdict::Fail && o.sig == sig,
+            _ => false,
+        }
+    };
+    // drop trailing chunks / empty chunks (inputs, operations)
+    let mut i = case.len();
+    while i > 0 {
+        i -= 1;
+        if case[i].is_empty() {
+            continue;
+        }
+        let mut c = case.clone();
+        c[i].clear();
+        if fails(cx, &c, &mut budget) {
+            case = c;
+        }
+    }
+    for _round in 0..2 {
+        for ci in 0..case.len() {
+            // truncate
+            let mut len = case[ci].len();
+            let mut step = len / 2;
+            while step >= 1 && len > 0 {
+                if len >= step {
+                    let mut c = case.clone();
+                    c[ci].truncate(len - step);
+                    if fails(cx, &c, &mut budget) {
+                        case = c;
+                        len -= step;
+                        continue;
+                    }
+                }
+                step /= 2;
+            }
+            // zero windows
+            let mut w = 64usize;
+            while w >= 1 {
+                let n = case[ci].len();
+                let mut start = 0;
+                while start < n {
+                    let end = (start + w).min(n);
+                    if case[ci][start..end].iter().any(|b| *b != 0) {
+                        let mut c = case.clone();
+                        for b in &mut c[ci][start..end] {
+                            *b = 0;
+                        }
+                        if fails(cx, &c, &mut budget) {
+                            case = c;
+                        }
+                    }
+                    start = end;
+                }
+                w /= 2;
+            }
+            // lower single bytes (halving)
+            for bi in 0..case[ci].len() {
+                let mut v = case[ci][bi];
+                while v > 0 {
+                    let nv = v / 2;
+                    let mut c = case.clone();
+                    c[ci][bi] = nv;
+                    if fails(cx, &c, &mut budget) {
+                        case = c;
+                        v = nv;
+                    } else {
+                        break;
+                    }
+                }
+            }
+        }
+    }
+    case
+}
+
 /// Re-run a (failing) case with rendering on, to get the message and the rendered form.
 fn describe(worker: &mut WorkerHandle, case: &Case) -> (String, String) {
     match worker.run(case, true) {
-        CaseResult::Done(o) => (o.msg, o.render.unwrap_or_default()),
+        CaseResult::Done(o) => {
+            let mut r = o.render.unwrap_or_default();
+            if r.is_empty() {
+                r = worker.render_only(case);
+            }
+            if o.verdict == Verdict::Fail {
+                let red = worker.reduce(case, &o.sig);
+                if !red.is_empty() {
+                    r = format!("{r}\n---- reduced (same failure signature) ----\n{red}");
+                }
+            }
+            (o.msg, r)
+        }
         CaseResult::Timeout => ("(timeout on re-run)".into(), String::new()),
         CaseResult::Infra(e) => (e, String::new()),
     }
@@ -611,8 +774,28 @@ pub fn run_check(prop: &'static dyn Prop, tier: Tier, seed: u64) -> i32 {
     // 1. replay reproducers of known / fixed findings (no exclusions active)
     let mut active: Vec<Known> = Vec::new();
     {
+        // findings owned by other properties whose shapes must also be kept out of this
+        // property's generated domain: replay them with the owner's worker
+        for k in known.iter().filter(|k| k.property != prop.id() && k.status == "known") {
+            let still = match &k.reproducer {
+                None => true,
+                Some(case) => {
+                    let mut w = WorkerHandle::new(&k.property, &[], "known-other", 10_000);
+                    match w.run(case, false) {
+                        CaseResult::Done(o) => o.verdict == Verdict::Fail,
+                        CaseResult::Timeout => true,
+                        CaseResult::Infra(_) => true,
+                    }
+                }
+            };
+            if still {
+                active.push(k.clone());
+            } else {
+                notes.push(format!("known finding {} (owned by {}) no longer reproduces; its exclusion is off", k.id, k.property));
+            }
+        }
         let mut w = WorkerHandle::new(prop.id(), &[], "known", prop.timeout_ms().min(10_000));
-        for k in &known {
+        for k in known.iter().filter(|k| k.property == prop.id()) {
             let Some(case) = &k.reproducer else {
                 if k.status == "known" {
                     // no reproducer: matcher-only entry, always active
@@ -787,9 +970,13 @@ pub fn replay(prop: &'static dyn Prop, path: &Path) -> i32 {
     };
     let known = load_known(prop.id());
     let mut w = WorkerHandle::new(prop.id(), &[], "replay", prop.timeout_ms());
+    let pre = w.render_only(&case);
+    if !pre.is_empty() {
+        println!("{pre}");
+    }
     match w.run(&case, true) {
         CaseResult::Done(o) => {
-            if let Some(r) = &o.render {
+            if let (Some(r), true) = (&o.render, pre.is_empty()) {
                 println!("{r}");
             }
             match o.verdict {
@@ -822,5 +1009,38 @@ pub fn replay(prop: &'static dyn Prop, path: &Path) -> i32 {
             println!("INCONCLUSIVE {e}");
             2
         }
+    }
+}
+
+
+/// Debug helper: run N random cases in-process and tally discard / failure reasons.
+pub fn tally(prop: &'static dyn Prop, n: u32, seed: u64) {
+    use proptest::strategy::ValueTree;
+    crate::worker::install_panic_hook();
+    let strat = case_strategy(&prop.shape(Tier::Quick));
+    let config = Config { rng_seed: RngSeed::Fixed(seed), failure_persistence: None, ..Config::default() };
+    let mut runner = TestRunner::new(config);
+    let mut w = prop.worker(&std::env::var("VERIF_EXCL").unwrap_or_default().split(',').filter(|s| !s.is_empty()).map(|s| s.to_string()).collect::<Vec<_>>());
+    let mut counts: BTreeMap<String, (u64, String)> = BTreeMap::new();
+    let mut pass = 0u64;
+    for _ in 0..n {
+        let case = strat.new_tree(&mut runner).unwrap().current();
+        let o = crate::worker::guarded(|| w.run(&case, false));
+        match o.verdict {
+            Verdict::Pass => pass += 1,
+            _ => {
+                let key: String = o.msg.lines().skip(if o.verdict == Verdict::Discard { 1 } else { 0 }).next().unwrap_or("").chars().take(110).collect();
+                let key = format!("{:?} {} {}", o.verdict, o.sig, crate::worker::skeleton(&key));
+                let e = counts.entry(key).or_insert((0, o.msg.clone()));
+                e.0 += 1;
+            }
+        }
+    }
+    println!("pass {pass} of {n}");
+    let mut v: Vec<_> = counts.into_iter().collect();
+    v.sort_by_key(|(_, (c, _))| std::cmp::Reverse(*c));
+    for (k, (c, msg)) in v.iter().take(12) {
+        println!("==== {c} x {k}");
+        println!("{}", msg.chars().take(3000).collect::<String>());
     }
 }
